@@ -154,7 +154,7 @@ impl Check for C06 {
 
     fn run(&self, ctx: &mut Ctx) -> Result<(), MachineryError> {
         let g = grid(ctx.tier);
-        ctx.rule = "complete product over the boundary grid G: every ordered pair (a,b) x {+ - * / %} x 6 forms (expression, op-assign on variable / list element / property (two spellings), x = x op b), 6 comparisons, the identity (a/b)*b + a%b == a, every `_` placement (<=2) of every non-negative grid literal with and without `-`, too-large literals, ranges a .. a+d for d in [-2,6], every descending pair as a range, ranges iterated directly / evaluated again after the first result changed / spread, op-assignment on a variable shadowing another one, three-operand chains; non-trivial = every case (all are distinct tuples); distinct = distinct (reference outcome, diagnostic shape)".to_string();
+        ctx.rule = "complete product over the boundary grid G: every ordered pair (a,b) x {+ - * / %} x 6 forms (expression, op-assign on variable / list element / property (two spellings), x = x op b), 6 comparisons, the identity (a/b)*b + a%b == a, every `_` placement (<=2) of every non-negative grid literal with and without `-`, too-large literals, ranges a .. a+d for d in [-2,6], every descending pair as a range, ranges iterated directly / evaluated again after the first result changed / spread, op-assignment on a variable shadowing another one, three-operand chains, 9 exact / inexact operations in 19 expression positions (conditions of if / else-if / while, iterables, indices, bounds, arguments, returns, literals, targets); non-trivial = every case (all are distinct tuples); distinct = distinct (reference outcome, diagnostic shape)".to_string();
         let mut total_pairs = 0u64;
         let mut overflow_cells = 0u64;
         for chunk in g.chunks(8) {
@@ -302,6 +302,33 @@ impl Check for C06 {
                     cases.push(Case::new(format!("x := 7\nb := {}\n{{\nx := {}\nx {}= b\nprint(x)\n}}\nprint(x)\n", lit(b), lit(a), op), T_REF, format!("{} {}= {} on a block variable shadowing another", a, op, b)));
                     cases.push(Case::new(format!("x := 7\nb := {}\nfn f() {{\nx := {}\nx {}= b\nprint(x)\nreturn fn () {{\nx {}= 1\nreturn x\n}}\n}}\nprint(f()())\nprint(x)\n", lit(b), lit(a), op, op), T_REF, format!("{} {}= {} on a function variable shadowing a global", a, op, b)));
                 }
+            }
+        }
+        // an operation that cannot be exact is reported wherever the expression stands
+        for (a, op, b) in [(i64::MAX, "+", 1i64), (i64::MIN, "-", 1), (i64::MAX, "*", 2), (i64::MIN, "/", -1), (5, "/", 0), (5, "%", 0), (i64::MIN, "*", -1), (3, "+", 4), (i64::MIN, "%", -1)] {
+            let e = format!("a {} b", op);
+            for pos in [
+                "if @ == 0 {\nprint(\"t\")\n} else {\nprint(\"f\")\n}\n",
+                "if false {\n} else if @ == 0 {\nprint(\"t\")\n}\n",
+                "n := 0\nwhile @ != 0 && n < 2 {\nn += 1\n}\nprint(n)\n",
+                "n := 0\nwhile n < 2 && @ != 0 {\nn += 1\n}\nprint(n)\n",
+                "for e in 0 .. (@) {\nbreak\n}\n",
+                "for e in [@] {\nprint(e)\n}\n",
+                "xs := [1, 2, 3, 4, 5, 6, 7, 8]\nprint(xs[@])\n",
+                "xs := [1, 2, 3, 4, 5, 6, 7, 8]\nprint(xs[0:@])\n",
+                "xs := [1, 2, 3, 4, 5, 6, 7, 8]\nxs[@] = 0\nprint(xs)\n",
+                "fn f(p) {\nreturn p\n}\nprint(f(@))\n",
+                "fn f() {\nreturn @\n}\nprint(f())\n",
+                "print([0, @])\n",
+                "print({\"k\": @})\n",
+                "x := 1\nx += @\nprint(x)\n",
+                "x := @\nprint(x)\n",
+                "[x] := [@]\nprint(x)\n",
+                "print((@) == (@))\n",
+                "print(-(@))\n",
+                "o := {\"m\": fn (p) {\nreturn p\n}}\nprint(o.m(@))\n",
+            ] {
+                cases.push(Case::new(format!("a := {}\nb := {}\nprint(\"pre\")\n{}print(\"post\")\n", lit(a), lit(b), pos.replace('@', &e)), T_REF, format!("{} {} {} in position {:?}", a, op, b, pos.replace('\n', " "))));
             }
         }
         ctx.judge(cases, |c, r, o| self.oracle(c, r, o))?;
